@@ -108,7 +108,7 @@ fn revoke_contract<const TABLE: u8, const L: usize, const NEIGH: bool>()
 #[kani::proof] #[kani::unwind(6)] fn k_cache_revoke_any_entity_event_l0() { revoke_contract::<0, 0, true>(); }
 //# id=K.cache.revoke.any_entity_event.L1 props=C06,C01 strength=bounded shape="list of length L=1 under the key, all ids symbolic; neighbour key and the 6 other lists hold one entry of the same id" tier=quick fns=ReactCache::revoke_any_entity_event_reactor
 #[kani::proof] #[kani::unwind(6)] fn k_cache_revoke_any_entity_event_l1() { revoke_contract::<0, 1, true>(); }
-//# id=K.cache.revoke.any_entity_event.L2 props=C06,C01 strength=bounded shape="list of length L=2 under the key, all ids symbolic; neighbour key and the 6 other lists hold one entry of the same id" tier=quick fns=ReactCache::revoke_any_entity_event_reactor
+//# id=K.cache.revoke.any_entity_event.L2 props=C06,C01 strength=bounded shape="list of length L=2 under the key, all ids symbolic; neighbour key and the 6 other lists hold one entry of the same id" tier=thorough fns=ReactCache::revoke_any_entity_event_reactor
 #[kani::proof] #[kani::unwind(6)] fn k_cache_revoke_any_entity_event_l2() { revoke_contract::<0, 2, false>(); }
 //# id=K.cache.revoke.any_entity_event.L3 props=C06,C01 strength=bounded shape="list of length L=3 under the key, all ids symbolic; neighbour key and the 6 other lists hold one entry of the same id" tier=thorough fns=ReactCache::revoke_any_entity_event_reactor
 #[kani::proof] #[kani::unwind(6)] fn k_cache_revoke_any_entity_event_l3() { revoke_contract::<0, 3, false>(); }
@@ -116,7 +116,7 @@ fn revoke_contract<const TABLE: u8, const L: usize, const NEIGH: bool>()
 #[kani::proof] #[kani::unwind(6)] fn k_cache_revoke_resource_l0() { revoke_contract::<1, 0, true>(); }
 //# id=K.cache.revoke.resource.L1 props=C06,C01 strength=bounded shape="list of length L=1 under the key, all ids symbolic; neighbour key and the 6 other lists hold one entry of the same id" tier=quick fns=ReactCache::revoke_resource_mutation_reactor
 #[kani::proof] #[kani::unwind(6)] fn k_cache_revoke_resource_l1() { revoke_contract::<1, 1, true>(); }
-//# id=K.cache.revoke.resource.L2 props=C06,C01 strength=bounded shape="list of length L=2 under the key, all ids symbolic; neighbour key and the 6 other lists hold one entry of the same id" tier=quick fns=ReactCache::revoke_resource_mutation_reactor
+//# id=K.cache.revoke.resource.L2 props=C06,C01 strength=bounded shape="list of length L=2 under the key, all ids symbolic; neighbour key and the 6 other lists hold one entry of the same id" tier=thorough fns=ReactCache::revoke_resource_mutation_reactor
 #[kani::proof] #[kani::unwind(6)] fn k_cache_revoke_resource_l2() { revoke_contract::<1, 2, false>(); }
 //# id=K.cache.revoke.resource.L3 props=C06,C01 strength=bounded shape="list of length L=3 under the key, all ids symbolic; neighbour key and the 6 other lists hold one entry of the same id" tier=thorough fns=ReactCache::revoke_resource_mutation_reactor
 #[kani::proof] #[kani::unwind(6)] fn k_cache_revoke_resource_l3() { revoke_contract::<1, 3, false>(); }
@@ -186,7 +186,7 @@ fn list_of(idsv: &[SystemCommand]) -> Vec<ReactorHandle> { let mut v = Vec::with
 
 /// entity event for type u32 at `target`: S scoped listeners of the event type (+ one scoped entry of ANOTHER event type and one
 /// insertion entry that must not fire), W type-wide listeners (+ listeners of another type under another key).
-fn entity_event_contract<const S: usize, const W: usize, const HAS_ER: bool>() {
+fn entity_event_contract<const S: usize, const W: usize, const HAS_ER: bool, const OTHER: bool>() {
     let mut world = World::new();
     let mut queue = CommandQueue::default();
     let mut cache = ReactCache::default();
@@ -199,7 +199,7 @@ fn entity_event_contract<const S: usize, const W: usize, const HAS_ER: bool>() {
     let mut i = 0; while i < W { wide[i] = any_sys(); i += 1; }
     let mut er = EntityReactors::default();
     if HAS_ER {
-        er.insert(other_ev, h(fixed_sys(1)));
+        if OTHER { er.insert(other_ev, h(fixed_sys(1))); }
         let mut i = 0; while i < S { er.insert(ev, h(scoped[i])); i += 1; }
     }
     if W > 0 { cache.any_entity_event_reactors.insert(TypeId::of::<u32>(), list_of(&wide)); }
@@ -239,19 +239,21 @@ fn entity_event_contract<const S: usize, const W: usize, const HAS_ER: bool>() {
     core::mem::forget(er); core::mem::forget(queue); core::mem::forget(cache); core::mem::forget(world);
 }
 //# id=K.dispatch.entity_event.s0w0 props=C01,C05 strength=complete shape="target without EntityReactors, no type-wide listener" tier=quick fns=ReactCache::schedule_entity_event_reaction
-#[kani::proof] #[kani::unwind(8)] fn k_dispatch_entity_event_s0w0_noer() { entity_event_contract::<0, 0, false>(); }
-//# id=K.dispatch.entity_event.s0w0_er props=C01,C05 strength=complete shape="target with EntityReactors holding only other event types, no type-wide listener" tier=quick fns=ReactCache::schedule_entity_event_reaction,EntityReactors::count,EntityReactors::iter_rtype
-#[kani::proof] #[kani::unwind(8)] fn k_dispatch_entity_event_s0w0_er() { entity_event_contract::<0, 0, true>(); }
-//# id=K.dispatch.entity_event.s1w1 props=C01,C05 strength=bounded shape="1 scoped + 1 type-wide listener (ids symbolic), plus a scoped entry of another type" tier=quick fns=ReactCache::schedule_entity_event_reaction,EntityReactors::count,EntityReactors::iter_rtype
-#[kani::proof] #[kani::unwind(8)] fn k_dispatch_entity_event_s1w1() { entity_event_contract::<1, 1, true>(); }
+#[kani::proof] #[kani::unwind(8)] fn k_dispatch_entity_event_s0w0_noer() { entity_event_contract::<0, 0, false, false>(); }
+//# id=K.dispatch.entity_event.s0w0_er props=C01,C05 strength=complete shape="target with EntityReactors holding only another event type, no type-wide listener" tier=quick fns=ReactCache::schedule_entity_event_reaction,EntityReactors::count,EntityReactors::iter_rtype
+#[kani::proof] #[kani::unwind(8)] fn k_dispatch_entity_event_s0w0_er() { entity_event_contract::<0, 0, true, true>(); }
+//# id=K.dispatch.entity_event.s1w1 props=C01,C05 strength=bounded shape="1 scoped + 1 type-wide listener (ids symbolic)" tier=quick fns=ReactCache::schedule_entity_event_reaction,EntityReactors::count,EntityReactors::iter_rtype
+#[kani::proof] #[kani::unwind(8)] fn k_dispatch_entity_event_s1w1_plain() { entity_event_contract::<1, 1, true, false>(); }
+//# id=K.dispatch.entity_event.s1w1_other props=C01,C05 strength=bounded shape="1 scoped + 1 type-wide listener (ids symbolic), plus a scoped entry of another event type" tier=thorough fns=ReactCache::schedule_entity_event_reaction,EntityReactors::count,EntityReactors::iter_rtype
+#[kani::proof] #[kani::unwind(8)] fn k_dispatch_entity_event_s1w1_other() { entity_event_contract::<1, 1, true, true>(); }
 //# id=K.dispatch.entity_event.s0w2 props=C01,C05 strength=bounded shape="target without EntityReactors, 2 type-wide listeners" tier=quick fns=ReactCache::schedule_entity_event_reaction
-#[kani::proof] #[kani::unwind(8)] fn k_dispatch_entity_event_s0w2() { entity_event_contract::<0, 2, false>(); }
-//# id=K.dispatch.entity_event.s2w0 props=C01,C05 strength=bounded shape="2 scoped listeners, no type-wide listener" tier=thorough fns=ReactCache::schedule_entity_event_reaction,EntityReactors::count,EntityReactors::iter_rtype
-#[kani::proof] #[kani::unwind(8)] fn k_dispatch_entity_event_s2w0() { entity_event_contract::<2, 0, true>(); }
+#[kani::proof] #[kani::unwind(8)] fn k_dispatch_entity_event_s0w2() { entity_event_contract::<0, 2, false, false>(); }
+//# id=K.dispatch.entity_event.s2w0 props=C01,C05 strength=bounded shape="2 scoped listeners (+ an entry of another event type), no type-wide listener" tier=thorough fns=ReactCache::schedule_entity_event_reaction,EntityReactors::count,EntityReactors::iter_rtype
+#[kani::proof] #[kani::unwind(8)] fn k_dispatch_entity_event_s2w0() { entity_event_contract::<2, 0, true, true>(); }
 
 /// insertion / mutation of component Val on `entity`: S scoped listeners of (kind, Val) (+ one scoped entry of the OTHER kind),
 /// W type-wide listeners of that kind (+ one in each of the two other lists of the same component).
-fn entity_reaction_contract<const MUTATION: bool, const S: usize, const W: usize, const HAS_ER: bool, const HAS_COMP: bool>() {
+fn entity_reaction_contract<const MUTATION: bool, const S: usize, const W: usize, const HAS_ER: bool, const HAS_COMP: bool, const OTHER: bool>() {
     let mut world = World::new();
     let mut queue = CommandQueue::default();
     let mut cache = ReactCache::default();
@@ -265,7 +267,7 @@ fn entity_reaction_contract<const MUTATION: bool, const S: usize, const W: usize
     let mut i = 0; while i < W { wide[i] = any_sys(); i += 1; }
     let mut er = EntityReactors::default();
     if HAS_ER {
-        er.insert(other_rt, h(fixed_sys(1)));
+        if OTHER { er.insert(other_rt, h(fixed_sys(1))); }
         let mut i = 0; while i < S { er.insert(rt, h(scoped[i])); i += 1; }
     }
     let mut cr = ComponentReactors{ insertion_callbacks: Vec::new(), mutation_callbacks: Vec::new(), removal_callbacks: one(fixed_sys(2)) };
@@ -303,17 +305,19 @@ fn entity_reaction_contract<const MUTATION: bool, const S: usize, const W: usize
     core::mem::forget(er); core::mem::forget(queue); core::mem::forget(cache); core::mem::forget(world);
 }
 //# id=K.dispatch.mutation.s0w1_er props=C01,C14 strength=bounded shape="entity with EntityReactors holding only another kind, 1 type-wide mutation listener" tier=quick fns=ReactCache::schedule_mutation_reaction,schedule_entity_reaction_impl
-#[kani::proof] #[kani::unwind(8)] fn k_dispatch_mutation_s0w1_er() { entity_reaction_contract::<true, 0, 1, true, true>(); }
+#[kani::proof] #[kani::unwind(8)] fn k_dispatch_mutation_s0w1_er() { entity_reaction_contract::<true, 0, 1, true, true, true>(); }
 //# id=K.dispatch.mutation.s1w1 props=C01,C14 strength=bounded shape="1 scoped + 1 type-wide mutation listener" tier=quick fns=ReactCache::schedule_mutation_reaction,schedule_entity_reaction_impl
-#[kani::proof] #[kani::unwind(8)] fn k_dispatch_mutation_s1w1() { entity_reaction_contract::<true, 1, 1, true, true>(); }
+#[kani::proof] #[kani::unwind(8)] fn k_dispatch_mutation_s1w1_plain() { entity_reaction_contract::<true, 1, 1, true, true, false>(); }
+//# id=K.dispatch.mutation.s1w1_other props=C01,C14 strength=bounded shape="1 scoped + 1 type-wide mutation listener, plus a scoped entry of the other kind" tier=thorough fns=ReactCache::schedule_mutation_reaction,schedule_entity_reaction_impl
+#[kani::proof] #[kani::unwind(8)] fn k_dispatch_mutation_s1w1_other() { entity_reaction_contract::<true, 1, 1, true, true, true>(); }
 //# id=K.dispatch.mutation.s0w0 props=C01,C14 strength=complete shape="entity without EntityReactors, no type-wide mutation listener (other lists non-empty)" tier=quick fns=ReactCache::schedule_mutation_reaction
-#[kani::proof] #[kani::unwind(8)] fn k_dispatch_mutation_s0w0() { entity_reaction_contract::<true, 0, 0, false, true>(); }
+#[kani::proof] #[kani::unwind(8)] fn k_dispatch_mutation_s0w0() { entity_reaction_contract::<true, 0, 0, false, true, false>(); }
 //# id=K.dispatch.insertion.s0w1_er props=C01,C14 strength=bounded shape="entity with EntityReactors holding only another kind, 1 type-wide insertion listener" tier=quick fns=ReactCache::schedule_insertion_reaction,schedule_entity_reaction_impl
-#[kani::proof] #[kani::unwind(8)] fn k_dispatch_insertion_s0w1_er() { entity_reaction_contract::<false, 0, 1, true, true>(); }
+#[kani::proof] #[kani::unwind(8)] fn k_dispatch_insertion_s0w1_er() { entity_reaction_contract::<false, 0, 1, true, true, true>(); }
 //# id=K.dispatch.insertion.s1w1 props=C01,C14 strength=bounded shape="1 scoped + 1 type-wide insertion listener" tier=quick fns=ReactCache::schedule_insertion_reaction,schedule_entity_reaction_impl
-#[kani::proof] #[kani::unwind(8)] fn k_dispatch_insertion_s1w1() { entity_reaction_contract::<false, 1, 1, true, true>(); }
+#[kani::proof] #[kani::unwind(8)] fn k_dispatch_insertion_s1w1() { entity_reaction_contract::<false, 1, 1, true, true, false>(); }
 //# id=K.dispatch.insertion.nocomp props=C14,C18 strength=bounded shape="entity does NOT carry React<C> (despawned before the insert was applied); 1 scoped + 1 type-wide insertion listener registered" tier=quick fns=ReactCache::schedule_insertion_reaction
-#[kani::proof] #[kani::unwind(8)] fn k_dispatch_insertion_nocomp() { entity_reaction_contract::<false, 1, 1, true, false>(); }
+#[kani::proof] #[kani::unwind(8)] fn k_dispatch_insertion_nocomp() { entity_reaction_contract::<false, 1, 1, true, false, false>(); }
 
 // ---------------------------------------------------------------------------------------------------------------
 // K.dispatch.despawn: schedule_despawn_reactions (C08, C07): for every entity reported on the despawn channel the map
